@@ -743,12 +743,33 @@ def gen_setup_client(rng, knobs=None):
         else:
             steps.append(['stream', 'c', sp, 2, {'src': 'generator', 'items': items(rng, 2, big=False)}, True])
     cut = rng.randint(0, len(steps))
+    if (knobs or {}).get('p_early'):
+        cut = 0         # (calls made before connect() was ever called are not requests of any connection)
     prog += steps[:cut]
     prog.append(['connect'])
-    for st in steps[cut:]:
-        prog.append(['step', rng.choice([0, 1, 1, 2])])
+    for n_st, st in enumerate(steps[cut:]):
+        # (in the early close / reconnect families connect() has at least started to run before the first call is made)
+        prog.append(['step', rng.choice([1, 1, 2]) if ((knobs or {}).get('p_early') and n_st == 0) else rng.choice([0, 1, 1, 2])])
         prog.append(st)
+    k = dict(knobs or {})
+    early = None
+    if rng.random() < k.get('p_early', 0.0):
+        # close() / reconnect() while the FIRST connect is still under way (provider / transport.connect() suspended, SETUP not sent yet)
+        early = rng.choice(k.get('early', ['close', 'reconnect']))
+        opts['mode'] = 'tcp'
+        opts['keepalive_ms'] = 200          # (no keep-alive time-outs in these scenarios)
+        opts['lifetime_ms'] = 600000
+        prog.append(['step', rng.choice([0, 1, 2, 3, 4, 6])])
+        prog.append(['close', 'c'] if early == 'close' else ['reconnect'])
     prog.append(['pump'])
+    if early == 'close':
+        prog.append(['advance', 300])
+        prog.append(['pump'])
+        prog.append(['snapshot', 'final'])
+        return opts, prog
+    if early == 'reconnect':
+        prog.append(['probe', 'c', spec(rng, big=False), spec(rng, big=False)])
+        prog.append(['pump'])
     if opts.get('honor_lease_c'):
         prog.append(['lease', 5, 10000])
         prog.append(['pump'])
